@@ -14,6 +14,7 @@
 import DeepModel.Proofs.CollectorSnap
 import DeepModel.Proofs.FramesCollect
 import DeepModel.Proofs.FramesEntries
+import DeepModel.Proofs.CollectorExamples
 
 namespace C05
 open Heap Collector Extracted.Collector
@@ -30,7 +31,7 @@ theorem c05_count_search (H : Heap) (L : Limits) (c : Cache) (t : List Entry) (n
     together) has at most `maxVars + 1` table entries. -/
 theorem c05_count (H : Heap) (a : ActionIn) (s : Snapshot) (h : collect H a = .ok s) :
     s.table.length ≤ a.limits.maxVars + 1 := by
-  obtain ⟨c, f⟩ := collect_facts h
+  have f := collect_facts h
   have := f.inv.count
   have := f.len
   omega
@@ -83,7 +84,7 @@ theorem c05_collection (H : Heap) (a : ActionIn) (s : Snapshot) (h : collect H a
 theorem c05_depth (H : Heap) (a : ActionIn) (s : Snapshot) (h : collect H a = .ok s) :
     ∀ e ∈ s.table, e.depth ≤ a.limits.maxDepth - 1 := by
   intro e he
-  obtain ⟨c, f⟩ := collect_facts h
+  have f := collect_facts h
   rcases f.inv.tdepth e he with h0 | h1
   · omega
   · omega
@@ -181,5 +182,38 @@ theorem c05_terminates (H : Heap) (L : Limits) (s : BState) :
 /-- and a finished search does not move any more -/
 theorem c05_final_stable (H : Heap) (L : Limits) (s : BState) (k : Nat) :
     run H L k (runToEnd H L s) = runToEnd H L s := run_final k (runToEnd_final H L s)
+
+/-! ### non-vacuity: the limits are really hit by concrete heaps
+
+  `z = [[1,2,3],[4,5,6],[7,8,9]]; y = 7` (the example of defect D4) -/
+
+set_option maxRecDepth 20000
+
+/-- budget 3: the locals dict (deleted afterwards), `z`, `y` and the first sub-list are recorded — `y` is not crowded
+    out by the contents of `z`; exactly `maxVars + 1 = 4` ids were handed out -/
+example : (match collect Ex.nested ⟨⟨3, 1024, 10, 5⟩, Ex.frame0, []⟩ with
+    | .ok s => (s.frames.map (·.map (fun r => (r.vid, r.name))), s.table.map (fun e => (e.vid, e.depth)))
+    | .failed _ => ([], [])) = ([[(2, "z"), (3, "y")]], [(2, 1), (3, 1), (4, 2)]) := by decide
+
+/-- collection size 2, string length 3: `z` lists 2 of its 3 elements, "Size: 3" is cut to "Siz" and flagged -/
+example : (match collect Ex.nested ⟨⟨40, 3, 2, 5⟩, Ex.frame0, []⟩ with
+    | .ok s => s.table.map (fun e => (e.vid, e.value, e.truncated, e.children.length))
+    | .failed _ => []) =
+    [(2, "Siz", true, 2), (3, "7", false, 0), (4, "Siz", true, 2), (5, "Siz", true, 2),
+     (6, "1", false, 0), (7, "2", false, 0), (8, "4", false, 0), (9, "5", false, 0)] := by decide
+
+/-- depth 2: only the locals themselves; depth 1 or 0: the frame has no variables at all (the locals dict is level 0) -/
+example : (match collect Ex.nested ⟨⟨40, 1024, 10, 2⟩, Ex.frame0, []⟩ with
+    | .ok s => s.table.map (fun e => (e.vid, e.depth, e.children.length)) | .failed _ => []) = [(2, 1, 0), (3, 1, 0)] := by
+  decide
+example : (match collect Ex.nested ⟨⟨40, 1024, 10, 1⟩, Ex.frame0, []⟩ with
+    | .ok s => (s.frames, s.table) | .failed _ => ([], [])) = ([[]], []) := by decide
+
+/-- the search of the nested example stops by the budget (`c05_budget_spent` is not vacuous) -/
+example : (runToEnd Ex.nested ⟨3, 1024, 10, 5⟩ (bfsInit ⟨3, 1024, 10, 5⟩ [] [] localsName 0)).stopped = true := by decide
+
+/-- with the BACK of the work list (the code before the fix of D4) the same budget is spent inside the last sub-list
+    and `y` is missed: the order theorems are about the queue end, not about the rest of the model -/
+example : ((popWith .back [⟨"a", none, 1, 1, none⟩, ⟨"b", none, 2, 1, none⟩]).map (·.1.name)) = some "b" := by decide
 
 end C05
